@@ -1,5 +1,6 @@
 (* Entry points for the extracted OCaml driver. *)
 From MLPE Require Export Engine.Run Spec.Fragments.
+From MLPE Require Pure.FsStore.
 
 Record result := {
   r_main : option (tstate frame);
@@ -44,3 +45,6 @@ Definition frag_flags (ds : decls) : list bool :=
     dup_source ds; odd_switch ds; shared_candidate ds; switch_in_candidate ds; rec_conflict ds; rec_bad_start ds;
     rec_outside_reader ds; rec_nonplain_inside ds; rec_overlap ds; rec_in_scope ds; rec_dest_is_output ds;
     has_switch ds; has_oneof ds; has_rec ds ].
+
+Definition fsstore_case (ops : list FsStore.op) : list FsStore.opres := snd (FsStore.run_ops FsStore.step [] ops).
+Definition fsstore_ext (pickle : bool) : list nat := FsStore.ext (if pickle then FsStore.FPickle else FsStore.FJson).
